@@ -54,39 +54,85 @@ def validator_loop(ctx):
         return
     hd = t.handlers[0]
     e = hd.name
-    # the flag: the single name tested right before the yield
-    ys = [y for y in ast.walk(outer) if isinstance(y, (ast.Yield, ast.YieldFrom))]
-    ok = len(ys) == 1 and isinstance(ys[0], ast.Yield) and pseudo(ys[0].value) == row
-    flag = None
+    # the flag: a name bound to a boolean constant before the field loop, changed (to the other constant) in the handler exactly when
+    # the policy answers false, and tested after the field loop: the row is yielded exactly when the flag still has its first value.
+    # Decided on the paths of the two loop bodies, so the polarity of the flag and the spelling of the tests do not matter.
+    from sa.model import norm_guard as _ngv
+    from sa.pathvals import PathValues as _PVv
+    pos_inner = outer.body.index(inner[0]) if inner[0] in outer.body else -1
+    inits = {}
+    for st_ in outer.body[:max(pos_inner, 0)]:
+        if isinstance(st_, ast.Assign) and len(st_.targets) == 1 and isinstance(st_.targets[0], ast.Name) and \
+                isinstance(st_.value, ast.Constant) and isinstance(st_.value.value, bool):
+            inits[st_.targets[0].id] = st_.value.value
+    changed = {pseudo(a_.targets[0]) for a_ in ast.walk(hd) if isinstance(a_, ast.Assign)} & set(inits)
+    flag = changed.pop() if len(changed) == 1 else None
+    ok = flag is not None and pos_inner >= 0
+    hname = None
+    okh = ok
     if ok:
-        st = ys[0]._parent._parent
-        ok = isinstance(st, ast.If) and isinstance(st.test, ast.Name) and st in outer.body and not st.orelse and \
-            outer.body.index(st) > outer.body.index(inner[0])
-        flag = st.test.id if ok else None
+        first = inits[flag]
+        # (1) the field loop: the flag changes only in the handler, only when the policy's answer is false
+        asked = 0
+        for p_ in Enumerator(where=sv.qualname).body_paths(inner[0]):
+            pv_ = _PVv(p_)
+            in_handler = any(it_.kind == 'handler' for it_ in p_.items)
+            stores_ = [ev_[2] for ev_ in pv_.events if ev_[0] == 'assign' and ev_[1] == flag]
+            okh = okh and p_.term in (FALL, CONTINUE)
+            if not in_handler:
+                okh = okh and not stores_
+                continue
+            ans = []
+            for t_, pol_ in pv_.guards:
+                t_, pol_ = _ngv(t_, pol_)
+                b_ = match_expr('_h(__NAME, _row, _i, _e, _f)', t_, {'_row': row, '_i': idx, '_e': e, '_f': fld})
+                if b_ is not None and "['name']" in u(b_['__NAME']):
+                    ans.append((b_['_h'], pol_))
+            if len(ans) != 1:
+                okh = False
+                continue
+            asked += 1
+            hname = ans[0][0]
+            if ans[0][1]:
+                okh = okh and not stores_
+            else:
+                okh = okh and len(stores_) == 1 and isinstance(stores_[0], ast.Constant) and stores_[0].value is (not first)
+        okh = okh and asked == 2
+        # nothing else leaves the handler
+        okh = okh and not [x for x in ast.walk(hd) if isinstance(x, (ast.Break, ast.Return, ast.Raise))]
+        # (2) the row loop: after the field loop the flag is tested; yield row exactly when it still has its first value
+        seen_ = set()
+        for p_ in Enumerator(where=sv.qualname).body_paths(outer):
+            items_ = p_.items
+            li_ = [i_ for i_, it_ in enumerate(items_) if it_.kind == 'loop' and it_.node is inner[0]]
+            if len(li_) != 1 or p_.term not in (FALL, CONTINUE):
+                ok = False
+                continue
+            before_ = [y_ for it_ in items_[:li_[0]] if isinstance(it_.node, ast.AST) and it_.kind != 'guard' for y_ in ast.walk(it_.node)
+                       if isinstance(y_, (ast.Yield, ast.YieldFrom))]
+            after_ = items_[li_[0] + 1:]
+            tests_ = [(t_, pol_) for t_, pol_ in [_ngv(it_.node, it_.pol) for it_ in after_ if it_.kind == 'guard'] if pseudo(t_) == flag]
+            ys_ = [y_ for it_ in after_ if it_.kind not in ('guard', 'loop') and isinstance(it_.node, ast.AST) for y_ in ast.walk(it_.node)
+                   if isinstance(y_, (ast.Yield, ast.YieldFrom))]
+            later_flag = [it_ for it_ in after_ if it_.kind == 'stmt' and isinstance(it_.node, ast.Assign) and pseudo(it_.node.targets[0]) == flag]
+            if before_ or len(tests_) != 1 or later_flag or any(it_.kind == 'loop' for it_ in after_):
+                ok = False
+                continue
+            holds = tests_[0][1] == first          # the flag still has its first value on this path
+            seen_.add(holds)
+            if holds:
+                ok = ok and len(ys_) == 1 and isinstance(ys_[0], ast.Yield) and pseudo(ys_[0].value) == row
+            else:
+                ok = ok and not ys_
+        ok = ok and seen_ == {True, False}
     run.check(ok, 'VAL', where(repo, outer), sv.qualname, 'if <flag>: yield row (after all fields)',
               'rows are dropped / emitted on a condition other than "no handler said drop"')
-    hname = None
-    if flag is None:
-        return
-    sets = [n for n in outer.body if match_stmt('%s = True' % flag, n) is not None]
-    clears = [n for n in ast.walk(outer) if isinstance(n, ast.Assign) and pseudo(n.targets[0]) == flag and n not in sets]
-    ok = len(sets) == 1 and outer.body.index(sets[0]) < outer.body.index(inner[0]) and len(clears) == 1 and \
-        match_stmt('%s = False' % flag, clears[0]) is not None
-    if ok:
-        cond = clears[0]._parent
-        test = resolve_here(cond.test) if isinstance(cond, ast.If) else None
-        ok = isinstance(cond, ast.If) and not cond.orelse and any(cond is x for h_ in [hd] for x in ast.walk(h_))
-        b = match_expr('not _h(__NAME, _row, _i, _e, _f)', test, {'_row': row, '_i': idx, '_e': e, '_f': fld}) if ok else None
-        ok = b is not None and "['name']" in u(b['__NAME'])
-        hname = b['_h'] if b is not None else None
-        # nothing else happens in the handler
-        other = [x for x in ast.walk(hd) if isinstance(x, (ast.Continue, ast.Break, ast.Return, ast.Raise))]
-        ok = ok and not other
-    run.check(ok, 'VAL', where(repo, hd), sv.qualname, 'if not on_error(resource[name], row, i, e, field): <flag> = False',
+    run.check(okh, 'VAL', where(repo, hd), sv.qualname, 'if not on_error(resource[name], row, i, e, field): <flag> = False',
               'the row is rejected (or kept) on a condition other than the handler\'s answer, or the handler does not receive '
               '(name, row, index, error, field)')
-    exits = [n for n in ast.walk(outer) if isinstance(n, (ast.Break, ast.Return, ast.Continue))]
-    run.check(not exits, 'VAL', where(repo, outer), sv.qualname, 'no break/continue/return in the validator loop',
+    exits = [n for n in ast.walk(outer) if isinstance(n, (ast.Break, ast.Return))] + \
+        [n for n in ast.walk(inner[0]) if isinstance(n, ast.Continue) and n is not inner[0].body[-1]]
+    run.check(not exits, 'VAL', where(repo, outer), sv.qualname, 'no break / return in the validator loop, no continue in the field loop',
               'the validator leaves a row or the stream early')
     fn = find_stmt('if _fn is None:\n    _fn = [_x.name for _x in _s.fields]', sv.node)
     sf = find_stmt('_sf = [_x for _x in _s.fields if _x.name in _fn]', sv.node)
